@@ -444,6 +444,7 @@ var Findings = []Finding{
 	{"labels-predicate-floats-to-final-select", LabelsPredicateBeforeBoundary},
 	{"quantifier-predicate-floats-to-final-select", QuantifierPredicateBeforeBoundary},
 	{"pattern-predicate-floats-into-later-clause", PatternPredicateBeforeBoundary},
+	{"path-function-predicate-floats-to-final-select", PathFunctionPredicateBeforeBoundary},
 	{"xor-operands-lose-grouping", XorWithCompoundOperand},
 	{"path-function-on-null-path", PathFunctionOnOptionalPath},
 	{"labels-of-null-node", LabelsOfOptionalNode},
@@ -1108,6 +1109,14 @@ func PatternPredicateBeforeBoundary(q *Shape) bool {
 	return q.predicateBeforeBoundary(hasPatternPredicate)
 }
 
+// PathFunctionPredicateBeforeBoundary: the same for a predicate over relationships(p) / nodes(p): the path's
+// component columns are not bindings of any frame, so the constraint is only emitted by the final select.
+func PathFunctionPredicateBeforeBoundary(q *Shape) bool {
+	return q.predicateBeforeBoundary(func(where any) bool {
+		return callsFunction(where, "relationships") || callsFunction(where, "nodes")
+	})
+}
+
 // XorWithCompoundOperand: an XOR one of whose operands is a conjunction / disjunction / negation / comparison.
 // XOR is emitted as "!=" without parenthesising the operands (translate/translator.go, case
 // *cypher.ExclusiveDisjunction); "!=" binds tighter than AND / OR / NOT in PostgreSQL, so "a AND b XOR c AND d" is
@@ -1325,10 +1334,11 @@ func init() {
 	Findings = append(Findings, Finding{"minmax-result-used-as-text", MinMaxAliasUsedInExpression})
 }
 
-// MinMaxAliasUsedInExpression: WITH min(x.key) AS a (or max) whose alias is later an operand of a comparison, a string
-// predicate or a function. cypher_min / cypher_max return jsonb; a later string operation casts the jsonb value to
-// text, which is its JSON text with the quotes ("a"), so `$p starts with a` and `a = 'x'` compare against the quoted
-// form (translate/function.go cypherMinMaxFunction).
+// MinMaxAliasUsedInExpression: WITH min(x.key) AS a (or max), or WITH x.key AS a, whose alias is later an operand of
+// a string predicate, an arithmetic expression or a function. Such an alias is a jsonb column (cypher_min /
+// cypher_max return jsonb, a projected property lookup keeps the -> operator); a later string operation casts the
+// jsonb value to text, which is its JSON text with the quotes ("a"), so `$p starts with a` compares against the
+// quoted form (translate/function.go cypherMinMaxFunction, translate/projection.go translateProjectionItem).
 func MinMaxAliasUsedInExpression(q *Shape) bool {
 	aliases := map[string]bool{}
 	for _, p := range q.Parts {
@@ -1337,10 +1347,16 @@ func MinMaxAliasUsedInExpression(q *Shape) bool {
 		}
 		for _, it := range p.Projection.Items {
 			expr, alias := ItemExpr(it)
-			if f, ok := expr.(*cypher.FunctionInvocation); ok && f != nil && alias != "" {
-				if name := strings.ToLower(f.Name); name == "min" || name == "max" {
+			if alias == "" {
+				continue
+			}
+			switch t := expr.(type) {
+			case *cypher.FunctionInvocation:
+				if name := strings.ToLower(t.Name); name == "min" || name == "max" {
 					aliases[alias] = true
 				}
+			case *cypher.PropertyLookup:
+				aliases[alias] = true
 			}
 		}
 	}
@@ -1351,20 +1367,29 @@ func MinMaxAliasUsedInExpression(q *Shape) bool {
 		v, ok := e.(*cypher.Variable)
 		return ok && v != nil && aliases[v.Symbol]
 	}
+	stringOperator := func(op cypher.Operator) bool {
+		switch op {
+		case cypher.OperatorStartsWith, cypher.OperatorEndsWith, cypher.OperatorContains:
+			return true
+		}
+		return false
+	}
 	found := false
 	Visit(q.Model, func(n any) bool {
 		switch t := n.(type) {
 		case *cypher.Comparison:
-			if isAlias(t.Left) {
-				found = true
-			}
+			operand := t.Left
 			for _, partial := range t.Partials {
-				if partial != nil && isAlias(partial.Right) {
+				if partial == nil {
+					continue
+				}
+				if stringOperator(partial.Operator) && (isAlias(operand) || isAlias(partial.Right)) {
 					found = true
 				}
+				operand = partial.Right
 			}
 		case *cypher.FunctionInvocation:
-			if name := strings.ToLower(t.Name); name != "min" && name != "max" {
+			if name := strings.ToLower(t.Name); name != "min" && name != "max" && name != "count" && name != "collect" {
 				for _, arg := range t.Arguments {
 					if isAlias(arg) {
 						found = true
